@@ -97,6 +97,7 @@ type Run struct {
 	notes      map[string]string
 	t0         time.Time
 	complete   bool
+	wd         *time.Timer // wall-clock watchdog of the case under way
 }
 
 // Finish marks the case loop as having run to its end (call last in TestCheck).
@@ -205,6 +206,23 @@ func (r *Run) Begin(i int, desc any) *C {
 		r.cur.Truncate(0)
 		r.cur.WriteAt(b, 0)
 	}
+	// wall-clock watchdog of one case (real time: Begin is called outside any bubble). A case takes seconds;
+	// one that is still running after ten minutes is spinning or stuck in a way the case's own (virtual-time)
+	// bounds cannot see. The child says so and exits; the runner counts it as inconclusive, never as a
+	// violation, and goes on after that case.
+	if r.wd != nil {
+		r.wd.Stop()
+	}
+	wall := 10 * time.Minute
+	if v := os.Getenv("VERIF_CASE_WALL_S"); v != "" {
+		if n, err := strconv.Atoi(v); err == nil && n > 0 {
+			wall = time.Duration(n) * time.Second
+		}
+	}
+	r.wd = time.AfterFunc(wall, func() {
+		fmt.Fprintf(os.Stderr, "\nVK-WATCHDOG: case %d exceeded %v of wall clock\n", i, wall)
+		os.Exit(97)
+	})
 	return &C{R: r, Index: i, Desc: desc, verdict: "held"}
 }
 
@@ -259,6 +277,9 @@ func (c *C) Inconclusive(why string) {
 // End closes the case.
 func (c *C) End() {
 	r := c.R
+	if r.wd != nil {
+		r.wd.Stop()
+	}
 	r.mu.Lock()
 	r.cases++
 	switch c.verdict {
